@@ -355,7 +355,9 @@ func genC06(p *Pkg) (map[string]string, error) {
 	bfs := []fnRef{{"Runtime", "stringproto_slice"}, {"Runtime", "stringproto_substring"}, {"Runtime", "stringproto_substr"},
 		{"Runtime", "stringproto_at"}, {"Runtime", "stringproto_charAt"}, {"Runtime", "_stringPad"}, {"Runtime", "stringproto_repeat"},
 		{"Runtime", "string_fromcharcode"}, {"Runtime", "string_fromcodepoint"}, {"", "writeSubstitution"},
-		{"Runtime", "stringReplace"}, {"Runtime", "stringproto_replace"}, {"Runtime", "stringproto_replaceAll"}, {"Runtime", "stringproto_concat"}}
+		{"Runtime", "stringReplace"}, {"Runtime", "stringproto_replace"}, {"Runtime", "stringproto_replaceAll"}, {"Runtime", "stringproto_concat"},
+		{"", "isWhitespaceUnit"}, {"", "trimString"}, {"Runtime", "string_raw"},
+		{"Runtime", "stringproto_split"}, {"Runtime", "arrayproto_join"}}
 	b.WriteString("def builtinSkeletons : List (String × List String) := [\n")
 	for i, fr := range bfs {
 		fd := p.FuncDecl(fr.recv, fr.name)
